@@ -178,6 +178,14 @@ pub fn catalogue(tier: Tier) -> Vec<(String, Option<bool>, String)> {
         for la in [not(field("f", "X")), and(field("f", "X")), not(seq(vec![lit("b"), over("X")])), and(opt(field("f", "X")))] {
             out.push((root(vec![Directive::Export], fill(c, &la), vec![]), Some(true), "field inside lookahead".into()));
         }
+        // fields that reach a lookahead through an include
+        for la in [not(inc("K")), and(inc("K")), not(seq(vec![lit("b"), inc("K")])), not(opt(inc("K"))), not(inc("K2"))] {
+            out.push((
+                root(vec![Directive::Export], fill(c, &la), vec![Rule::normal("K", vec![], seq(vec![field("kw", "X"), lit("k")])), Rule::normal("K2", vec![], seq(vec![lit("k"), inc("K")]))]),
+                Some(true),
+                "field inside lookahead (through an include)".into(),
+            ));
+        }
         // @: mixed with named fields
         out.push((root(vec![Directive::Export], seq(vec![fill(c, &over("X")), field("g", "Y")]), vec![]), Some(true), "@: mixed with named field".into()));
         out.push((root(vec![], seq(vec![field("g", "Y"), fill(c, &over("X"))]), vec![]), Some(true), "@: mixed with named field".into()));
